@@ -25,3 +25,12 @@ pub(crate) use solver::SchedulingSolution;
 
 #[cfg(test)]
 pub(crate) use batches::PriorityCut;
+
+#[cfg(all(feature = "verif", not(test)))]
+pub(crate) use mapping::create_task_mapping;
+
+#[cfg(all(feature = "verif", not(test)))]
+pub(crate) use solver::SchedulingSolution;
+
+#[cfg(feature = "verif")]
+pub(crate) use taskqueue::OneOrMoreTaskIds;
